@@ -113,7 +113,10 @@ func countTxBlock(g *vlib.Rng, height uint32, ntx, target int, withWit bool) (tx
 	return txs, w == target
 }
 
-func weightCountCase(caseSeed uint64, ntx, target int, withWit bool) {
+var weightCountBuilt, weightCountAsked int
+
+func weightCountCase(caseSeed uint64, ntx, target int, withWit, trusted bool) {
+	weightCountAsked++
 	g := vlib.NewRng(caseSeed)
 	sc := newScenario(g.U64(), nets[0], 12, 600)
 	now := stableNow()
@@ -125,11 +128,16 @@ func weightCountCase(caseSeed uint64, ntx, target int, withWit bool) {
 	if withWit {
 		s.mut += "-wit"
 	}
+	if trusted {
+		s.mut += "-trusted"
+		s.trusted = true
+	}
 	txs, ok := countTxBlock(g, height, ntx, target, withWit)
 	if !ok {
 		r.Hit("weight-count-case-not-constructed")
 		return
 	}
+	weightCountBuilt++
 	s.txs = txs
 	s.merkle, _ = refMerkle(txids(s.txs))
 	s.prevHash = sc.tip.BlockHash.Hash[:]
@@ -137,7 +145,7 @@ func weightCountCase(caseSeed uint64, ntx, target int, withWit bool) {
 	raw := s.raw()
 	r.Hit(fmt.Sprintf("weight-count/count-prefix-%d-bytes", varIntSize(uint64(ntx))))
 	rep := map[string]interface{}{"op": "weight-count", "mutation": s.mut, "target_weight": target, "transactions": ntx, "witness": withWit,
-		"raw_len": len(raw), "scenario": sc.desc, "wc_seed": fmt.Sprint(caseSeed)}
+		"raw_len": len(raw), "scenario": sc.desc, "wc_seed": fmt.Sprint(caseSeed), "trusted": trusted}
 	runBlock("weight-count", sc, s, cons, raw, now, rep)
 }
 
@@ -173,7 +181,12 @@ func weightCountCases(g *vlib.Rng) {
 			if c.withWit && n < 3 {
 				n = 3
 			}
-			weightCountCase(g.U64(), n, c.target, c.withWit)
+			weightCountCase(g.U64(), n, c.target, c.withWit, false)
+		}
+		if ntx == 2 || ntx == 253 {
+			// audit 2, 3c: trusted x over-weight — the weight limit is not among the rules a trusted block skips
+			weightCountCase(g.U64(), ntx, 4000004, false, true)
+			weightCountCase(g.U64(), ntx, 4000000, false, true)
 		}
 	}
 }
